@@ -118,6 +118,9 @@ loop:
 				if err == nil {
 					break loop
 				}
+				if _, ok := err.(*HaltError); ok {
+					break loop
+				}
 				pc, backtrack, err = code.v.(int), false, nil
 				goto loop
 			}
